@@ -401,10 +401,18 @@ def _limit_env(env, flav):
     return e
 
 
+CONFIRMED_HANGS = []     # sources with a confirmed hang in this process: one is enough to decide, nobody spends watchdog periods on more
+
+
 def run_chunk(agg, cmd_prefix, mode, seed, a, b, opts, env, timeout, source, max_samples, hang_is_violation, wrapper=None, san_logs=None):
     """run cases [a,b) in one process; on a crash attribute it to the last begun case and resume after it"""
     cur = a
     hang_counts = {}
+    if CONFIRMED_HANGS:
+        with agg.lock:
+            agg.inconclusive.append('%s: cases %d..%d not run (a hang was already confirmed in this run: %s)' % (source, a, b - 1, CONFIRMED_HANGS[0]))
+        return
+    case_budget = max(120, timeout / 3.0)      # what ONE case gets once it has been running at a watchdog firing
     parts = cmd_prefix[0].split(os.sep)
     flav = parts[-2] if len(parts) >= 2 else ''
     rerun = dict(kind='harness', harness=parts[-1].rsplit('-', 1)[0], flavour=parts[-2], mode=mode, seed=seed, opts=opts or {}, env={k: v for k, v in (env or {}).items() if k.endswith('SAN_OPTIONS')}, wrapper=wrapper or [])
@@ -431,8 +439,13 @@ def run_chunk(agg, cmd_prefix, mode, seed, a, b, opts, env, timeout, source, max
                 p.kill()
             except OSError:
                 pass
-        timer = threading.Timer(timeout, _kill)
+        timer = threading.Timer(timeout if b_run == b else case_budget, _kill)
         timer.start()
+        # strike 2: the suspect case is the first of the restarted chunk and must finish within the per-case budget
+        timer1 = threading.Timer(case_budget, _kill) if (hang_counts.get(cur, 0) == 1) else None
+        if timer1:
+            timer1.start()
+        first = cur
         errbuf = []
         th = threading.Thread(target=lambda: errbuf.append(p.stderr.read()))
         th.start()
@@ -444,9 +457,13 @@ def run_chunk(agg, cmd_prefix, mode, seed, a, b, opts, env, timeout, source, max
                         last_b = r[1]
                     else:
                         last_e = r[1]
+                        if timer1 and last_e == first:
+                            timer1.cancel()
         finally:
             rc = p.wait()
             timer.cancel()
+            if timer1:
+                timer1.cancel()
             timed_out = flag['t']
             th.join()
         err = errbuf[0] if errbuf else ''
@@ -469,14 +486,21 @@ def run_chunk(agg, cmd_prefix, mode, seed, a, b, opts, env, timeout, source, max
                     agg.inconclusive.append('%s: watchdog fired outside a case (cases %d..%d)' % (source, cur, b))
                 return
             hang_counts[failing] = hang_counts.get(failing, 0) + 1
+            if CONFIRMED_HANGS and hang_counts[failing] < 3:
+                with agg.lock:
+                    agg.inconclusive.append('%s: watchdog fired at case %d; cases %d..%d not pursued (a hang was already confirmed in this run: %s)' % (source, failing, failing, b - 1, CONFIRMED_HANGS[0]))
+                return
             if hang_counts[failing] >= 3:
+                CONFIRMED_HANGS.append(source)
                 with agg.lock:
                     if hang_is_violation:
                         agg.hangs.append(dict(idx=failing, source=source, rerun=dict(rerun, idx=failing)))
                     else:
                         agg.inconclusive.append('%s: case %d exceeded the watchdog three times (the last time alone)' % (source, failing))
-                cur = failing + 1
-                continue
+                    if failing + 1 < b:
+                        # one confirmed hang decides the run; the rest of this chunk is not worth three watchdog periods per case
+                        agg.inconclusive.append('%s: cases %d..%d not run (chunk abandoned after the confirmed hang of case %d)' % (source, failing + 1, b - 1, failing))
+                return
             cur = failing
             continue
         if rc == 2 and failing is None:
